@@ -179,3 +179,106 @@ def rule_Q2(prog, fixture=False):
                 res.add(key, DISCHARGED, where, what, "every dereference is behind a live found-check", func=f.name, extra=extra)
     res.stats["search_sites"] = n_sites
     return res
+
+
+# ------------------------------------------------------------------------------------------------
+# N8 MASK-AS-MODULO
+def _is_pow2_fact(cn, pol, ntext):
+    """(cn == pol) says that the quantity spelled ntext is a power of two"""
+    e = cn.strip_all()
+    while e.k == "UnaryOperator" and e.op == "!" and e.c:
+        pol = not pol
+        e = e.c[0].strip_all()
+    if e.is_call() and e.callee and (e.callee.get("qn") or "").rsplit("::", 1)[-1] in ("ispow2", "is_pow2", "_ispow2", "has_single_bit"):
+        args = e.call_args()
+        return pol and bool(args) and args[0].strip_all().text() == ntext
+    cmp_ = as_comparison(e)
+    if cmp_ is not None:
+        l, op, r = cmp_
+        if not pol:
+            op = NEG[op]
+        for (a, b) in ((l, r), (r, l)):
+            a0, b0 = a.strip_all(), b.strip_all()
+            if b0.k == "IntegerLiteral" and str(b0.get("v")) == "0" and op == "==" and a0.k == "BinaryOperator" and a0.op == "&":
+                t = {a0.c[0].strip_all().text(), a0.c[1].strip_all().text()}
+                if t == {ntext, "%s - 1" % ntext}:
+                    return True
+    return False
+
+
+def rule_N8(prog, fixture=False):
+    res = RuleResult("N8", "`e & (n - 1)` stands for `e % n` only when n is a power of two: wherever a value is reduced with a mask formed "
+                           "as n - 1 from a non-constant n, a live check (ispow2(n), (n & (n - 1)) == 0) or the construction of n (1 << k) "
+                           "establishes that - otherwise positions are dropped or taken twice for every other n")
+    from .ir import _single_def
+    n_sites = 0
+    for f in sorted(prog.functions.values(), key=lambda g: (g.file, g.line, g.name)):
+        if f.get("implicit") or f.file.endswith("coverage.cc"):
+            continue
+        rel = prog.rel(f.file)
+        if not fixture and not (rel.startswith("lib/") or rel.startswith("include/")):
+            continue
+        k_in_f = 0
+        for x in f.walk():
+            if not (x.k == "BinaryOperator" and x.op == "&" and len(x.c) == 2):
+                continue
+            mask = None
+            for side in x.c:
+                m = side.strip_all()
+                if m.k == "BinaryOperator" and m.op == "-" and len(m.c) == 2 and m.c[1].strip_all().k == "IntegerLiteral" \
+                        and str(m.c[1].strip_all().get("v")) == "1":
+                    mask = m
+            if mask is None:
+                continue
+            nexp = mask.c[0].strip_all()
+            other = [s_ for s_ in x.c if s_.strip_all() is not mask]
+            # the test (n & (n - 1)) itself
+            if other and other[0].strip_all().text() == nexp.text():
+                continue
+            k_in_f += 1
+            n_sites += 1
+            key = "N8:%s%s" % (_fkey(f), "" if k_in_f == 1 else "#%d" % k_in_f)
+            where = "%s:%d" % (rel, x.line)
+            what = "%s in %s" % (x.text()[:60], f.short)
+            extra = {"props": ["C05"] + (["C02", "C10"] if ("/fft/" in rel or rel.endswith("stft.cpp")) else [])}
+            if nexp.k == "IntegerLiteral":
+                v = int(nexp.get("v"))
+                if v > 0 and (v & (v - 1)) == 0:
+                    res.add(key, DISCHARGED, where, what, "the modulus is the constant %d, a power of two" % v, func=f.name, extra=extra)
+                else:
+                    res.add(key, VIOLATED, where, what, "the modulus %d is not a power of two" % v, func=f.name, extra=extra)
+                continue
+            # construction: n = 1 << k
+            d = nexp
+            hops = 0
+            while d.k == "DeclRefExpr" and d.decl and d.decl.get("k") == "local" and hops < 3:
+                dd = _single_def(d)
+                if dd is None:
+                    break
+                d = dd.strip_all()
+                hops += 1
+            if d.k == "BinaryOperator" and d.op == "<<" and d.c[0].strip_all().k == "IntegerLiteral" and str(d.c[0].strip_all().get("v")) == "1":
+                res.add(key, DISCHARGED, where, what, "%s is formed as 1 << k" % nexp.text(), func=f.name, extra=extra)
+                continue
+            ok = False
+            cands = {nexp.text(), d.text()}
+            for fact in f.facts_at(x):
+                if fact.belief:
+                    continue
+                for (cn, pol) in atoms_of(fact.cond, fact.pol):
+                    if any(_is_pow2_fact(cn, pol, t) for t in cands):
+                        ok = True
+            if ok:
+                res.add(key, DISCHARGED, where, what, "a live check establishes that %s is a power of two" % nexp.text(), func=f.name, extra=extra)
+            elif nexp.k == "MemberExpr" or (nexp.k == "DeclRefExpr" and nexp.decl and nexp.decl.get("k") == "parm" and
+                                             (f.get("anon_ns") or f.get("static_fn") or f.get("access") == "private")):
+                res.add(key, UNMODELLED, where, what, "%s is established elsewhere (a member / an internal function's parameter)" % nexp.text(),
+                        func=f.name, extra=extra)
+            else:
+                res.add(key, VIOLATED, where, what,
+                        "%s is reduced with the mask %s, which equals the remainder modulo %s only for powers of two; no live check or "
+                        "construction on the way here says that %s is one: for any other value some positions are never produced and "
+                        "others twice" % (other[0].text()[:40] if other else "a value", mask.text(), nexp.text(), nexp.text()),
+                        func=f.name, extra=extra)
+    res.stats["mask_sites"] = n_sites
+    return res
